@@ -246,6 +246,11 @@ class Facts:
         out = {}
         for n in ("diplomat_runtime.lib", "diplomat_core.lib+hir", "diplomat_tool.lib", "diplomat.lib"):
             out.update(self.unit(n).adts)
+        # synthetic std ADTs the decision-table expansion may need to split on
+        out["core::option::Option"] = {"path": "core::option::Option", "kind": "enum", "variants": [
+            {"name": "None", "fields": []}, {"name": "Some", "fields": [{"name": "0", "ty": "T"}]}]}
+        out["core::result::Result"] = {"path": "core::result::Result", "kind": "enum", "variants": [
+            {"name": "Ok", "fields": [{"name": "0", "ty": "T"}]}, {"name": "Err", "fields": [{"name": "0", "ty": "E"}]}]}
         return out
 
 
@@ -546,6 +551,8 @@ def _type_to_adt(ty, adts):
             continue
         break
     base = re.sub(r"<.*$", "", t)
+    if base in ("core::option::Option", "std::option::Option"):
+        return "core::option::Option"
     return base if base in adts else None
 
 
